@@ -1,7 +1,7 @@
 from common import WORLD_TB, WORLD_ASSUME, SCEN_RULE
 
 PROP = {
-    "suites": ["scn-chain", "scn-mount", "scn-mixed"],
+    "suites": ["scn-directed", "scn-chain", "scn-mount", "scn-mixed"],
     "lean_modules": ["Lc.Props.C01"],
     "leanchecker": True,
     "trusted_base": WORLD_TB,
